@@ -192,6 +192,22 @@ theorem writeBlobTrace_last (s : State) (name : Name) (size : Nat) (atts : List 
       | some a => simp [List.getLast?_cons_cons]
   · exact hdisk s _
 
+/-- **C01 (1d)** Readers that are held open stay sound: a reader opened under `n` after any history delivers
+bytes hashing to `n` when it is finally read, whatever happened to the store in between (drain of the entry,
+TTL removal, deletion of the file, refreshes of other blobs through the memory cache, …).  In the model a
+reader *is* the bytes it was opened on (entries and cache files are never rewritten); the correspondence
+harness keeps readers open across later operations and compares what they finally return. -/
+theorem held_reader_sound (cfg : Cfg) (hs : cfg.skipVerify = false) (ops later : List Op) (n : Name) (r : Reader)
+    (ho : openReader (run H crc cfg ops) n = some r) :
+    H (r.readAll ((ops ++ later).foldl (step H crc) (init cfg))) = n ∧ r.name = n := by
+  unfold openReader at ho
+  cases hr : readable (run H crc cfg ops) n with
+  | none => simp [hr] at ho
+  | some b =>
+    simp [hr] at ho
+    subst ho
+    exact ⟨(served_sound (H := H) (crc := crc) cfg hs ops n b hr).1, rfl⟩
+
 /-- **C01 (3)** (the store is not vacuous) a direct cache write of content that does hash to a valid
 name succeeds and makes content readable under the name (unless the disk refuses: `usable`). -/
 theorem matching_write_served (s : State) (name : Name) (b : Bytes) (hv : validName name = true) (hb : H b = name)
